@@ -650,6 +650,9 @@ def einsum(*ops, out=None, **kw):
             _polyize(a)
     ins, outs = _parse_einsum(subs, arrs)
     EINSUM_CALLS.append(subs)
+    if len(arrs) == 1 and out is None and isinstance(ops[1], np.ndarray) and list(ins[0]) == list(outs) and len(set(outs)) == len(outs) and "." not in subs:
+        # numpy returns a *view* of the operand for an identity subscript (e.g. einsum("a", w)): keep the aliasing
+        return ops[1].view()
     dims = {}
     for s, a in zip(ins, arrs):
         for c, n in zip(s, a.shape):
@@ -2179,7 +2182,7 @@ def externals(it):
         "string": ExtModule("string", dict(ascii_lowercase=_string.ascii_lowercase, ascii_uppercase=_string.ascii_uppercase,
                                            ascii_letters=_string.ascii_letters)),
         "copy": ExtModule("copy", dict(deepcopy=_deepcopy, copy=_shallow)),
-        "functools": ExtModule("functools", dict(wraps=_wraps, partial=_partial, reduce=_reduce)),
+        "functools": ExtModule("functools", dict(wraps=_wraps, partial=_partial, reduce=_reduce, lru_cache=_lru_cache, cache=_lru_cache(None))),
         "collections": ExtModule("collections", dict(namedtuple=_namedtuple)),
         "itertools": ExtModule("itertools", dict(product=lambda *a, **k: list(itertools.product(*a, **k)),
                                                  combinations=lambda *a: list(itertools.combinations(*a)),
@@ -2207,6 +2210,32 @@ def _partial(f, *a, **k):
         return f(*(a + b), **d)
 
     return g
+
+
+def _lru_cache(maxsize=128, typed=False):
+    """functools.lru_cache / cache: a memoising wrapper -- a repeated call returns the *same object* (whoever changes it in place changes it for
+    every later caller)"""
+    def deco(f):
+        memo = {}
+
+        def wrapper(*a, **k):
+            try:
+                key = (tuple(a), tuple(sorted(k.items())))
+                hash(key)
+            except TypeError:
+                raise Undecided("lru_cache with unhashable arguments")
+            if key not in memo:
+                memo[key] = f(*a, **k)
+            return memo[key]
+
+        wrapper.__name__ = getattr(f, "__name__", "cached")
+        wrapper.cache_clear = memo.clear
+        return wrapper
+
+    if callable(maxsize) and not isinstance(maxsize, bool):
+        f, maxsize = maxsize, 128
+        return deco(f)
+    return deco
 
 
 def _reduce(f, xs, *init):
